@@ -141,10 +141,12 @@ class Imaginizer(EndomorphicOperator):
     def apply(self, x, mode):
         self._check_input(x, mode)
         if mode == self.TIMES:
-            if not np.issubdtype(x.dtype, np.complexfloating):
+            from ..utilities import iscomplextype
+            if not iscomplextype(x.dtype):
                 raise ValueError
             return x.imag
-        if x.dtype not in (np.float64, np.float32):
+        from ..utilities import iscomplextype
+        if iscomplextype(x.dtype):
             raise ValueError
         return 1j*x
 
